@@ -381,6 +381,8 @@ func (e *Exec) renderVal(v Value, env map[string]uint64, memo map[*Term]uint64) 
 				return "nilptr"
 			}
 			return "ptr"
+		case FloatV:
+			return fmt.Sprint(y.f)
 		}
 		return "?" + fmt.Sprintf("%T", x.v)
 	}
